@@ -180,6 +180,16 @@ macro_rules! name_harness {
             let n = r.name.len();
             let f = TlsCipherSuite::from_name(&r.name[..n - 1]);
             vassert!(f.is_none() || f.map(|c| c.name.len()) == Some(n - 1), "C12.from_name.strict_prefix_does_not_find_this_suite");
+            // the same name with the case of one letter flipped is a different string
+            let mut lc = [0u8; 64];
+            lc[..n].copy_from_slice(r.name.as_bytes());
+            lc[0] ^= 0x20; // 'T' -> 't'
+            if let Ok(sl) = core::str::from_utf8(&lc[..n]) {
+                let f = TlsCipherSuite::from_name(sl);
+                vassert!(f.is_none(), "C12.from_name.other_string_does_not_find_this_suite");
+                let f2 = <&'static TlsCipherSuite>::try_from(sl).ok();
+                vassert!(f2.is_none(), "C12.from_name.try_from_str_agrees");
+            }
             vcover!(true, "C12.cover.from_name_concrete");
         }
 
